@@ -30,6 +30,10 @@ func x509Name(pk *x509.PublicKey) string {
 		return "zero"
 	}
 	data := x509.MarshalPublicKey(nil, pk)
+	ecKey()
+	if bytes.Equal(data, x509.MarshalPublicKey(nil, &mePub)) {
+		return "Me"
+	}
 	for _, n := range nodeNames {
 		if bytes.Equal(data, attacker.X509PublicBytes(edKey(n))) {
 			return n
@@ -293,7 +297,7 @@ func (w *p2pkeWorld) mLoop() {
 	}
 }
 
-func (w *p2pkeWorld) MListen(k, proof string) {
+func (w *p2pkeWorld) MListen(k, proof, extra string) {
 	w.mu.Lock()
 	w.pol = [2]string{k, proof}
 	w.mu.Unlock()
@@ -332,7 +336,7 @@ func drain(ch chan []byte) {
 }
 
 // MPresent is one complete handshake attempt of M as initiator presenting key k.
-func (w *p2pkeWorld) MPresent(c int, k, proof string) string {
+func (w *p2pkeWorld) MPresent(c int, k, proof, extra string) string {
 	if res := w.MHello(c, k, proof); res != "RespHello received" {
 		return res
 	}
